@@ -49,8 +49,10 @@ theorem structAttr_spec (env : Env T) (hn : NoDeepSHNF env) (prefer : Bool) (f :
     rename_i t
     cases hd : env.disp t <;> simp [callDisp, hasHook, hookResult, lookupBroken, hd, HR.toOption]
   all_goals first
-    | (have h2 := hn.2 t raw hd
+    | (have h2 := hn.2.1 t raw hd
        cases hr : env.construct t raw <;> simp [hr] at h2 ⊢)
+    | (have h3 := hn.2.2 t raw hd
+       cases hr : env.late t raw <;> simp [hr] at h3 ⊢)
     | (rename_i g
        have h1 := hn.1 t g raw hd
        cases hr : g raw <;> simp [hr] at h1 ⊢)
